@@ -512,3 +512,84 @@ for _p in proofs_am:
     _p.timeout = 300
     refuters[_p.name] = refute_spandata
 proofs += proofs_am
+
+
+# ---------------------------------------------------------------------------------------------
+# MultiRecordable (sdk/include/opentelemetry/sdk/trace/multi_recordable.h): "with several processors each receives its own identical copy": every
+# operation on the multi recordable is passed on, with the caller's arguments, to the recordable of EVERY processor exactly once (loop invariant over
+# the map of per-processor recordables, any number of processors).
+TU_MR = ("tu_multi_recordable", '#include "opentelemetry/sdk/trace/multi_recordable.h"\n')
+MR_PRE = r"""
+size_t g_k;
+enum { MOP_SetName = 1, MOP_SetStatus, MOP_SetAttribute, MOP_AddEvent };
+unsigned long g_calls, g_w_h; int g_w_op; const char *g_w_sv; long g_w_i; const void *g_w_p;      /* number of calls on member recordables; the call number g_k */
+static void xc_havoc_ghosts(void) { size_t a; g_k = a; g_calls = 0; g_w_h = 0; g_w_op = 0; g_w_sv = 0; g_w_i = 0; g_w_p = 0; }
+typedef struct xc_recpair { unsigned long first; xc_handle second; } xc_recpair;       /* value_type of std::map<size_t, std::unique_ptr<Recordable>> */
+typedef struct xc_recmap { xc_recpair *items; size_t count; } xc_recmap;
+#define MR_GHOSTS g_calls, g_w_h, g_w_op, g_w_sv, g_w_i, g_w_p
+"""
+MR_POST = r"""
+static void xc_mrec(xc_handle r, int op, string_view sv, long i, const void *p) { if (g_calls == g_k) { g_w_h = r.id; g_w_op = op; g_w_sv = sv.data_; g_w_i = i; g_w_p = p; } g_calls++; }
+"""
+
+
+def _mr_types(em, base, targs, name):
+    if base == "std::map" and targs and "Recordable" in targs[-1]:
+        return common.CT("xc_recmap")
+    if base == "std::pair" and targs and "Recordable" in targs[-1]:
+        return common.CT("xc_recpair")
+    if base == "std::unique_ptr" and targs and targs[0].strip().split("::")[-1] == "Recordable":
+        return common.CT("xc_handle")
+    return None
+
+
+def _configure_mr(cfg):
+    common.sdk_trace_boundary(cfg)
+    common.chrono_boundary(cfg)
+    cfg.value_classes |= {"string_view", "SystemTimestamp"}
+    cfg.type_handlers.insert(0, common._variant_opaque)
+    cfg.type_handlers.insert(0, _mr_types)
+    cfg.opaque_records["common::KeyValueIterable"] = "xc_opaque"
+    if not hasattr(cfg, "seq_handlers"):
+        cfg.seq_handlers = {}
+    cfg.seq_handlers["std::map"] = lambda em, seq, targs: ("(%s).items" % seq, "(%s).count" % seq)
+    cfg.seq_handlers["xc_recmap"] = cfg.seq_handlers["std::map"]
+    cfg.ext_methods["std::unique_ptr::operator->"] = lambda em, recv, args, n: recv
+    unp = lambda r: (r["node"] if isinstance(r, dict) and r.get("xc_is_ptr") else r)
+    cfg.ext_q["Recordable::SetName"] = lambda em, node, recv, args: "xc_mrec(%s, MOP_SetName, %s, 0, 0)" % (em.expr(unp(recv)), em.expr(args[0]))
+    cfg.ext_q["Recordable::SetStatus"] = lambda em, node, recv, args: "xc_mrec(%s, MOP_SetStatus, %s, (long)(%s), 0)" % (em.expr(unp(recv)), em.expr(args[1]), em.expr(args[0]))
+    cfg.ext_q["Recordable::SetAttribute"] = lambda em, node, recv, args: "xc_mrec(%s, MOP_SetAttribute, %s, 0, (const void *)%s)" % (em.expr(unp(recv)), em.expr(args[0]), em.addr_of(args[1]))
+    cfg.ext_q["Recordable::AddEvent"] = lambda em, node, recv, args: "xc_mrec(%s, MOP_AddEvent, %s, (%s).nanos_since_epoch_, (const void *)%s)" % (em.expr(unp(recv)), em.expr(args[0]), em.expr(args[1]), em.addr_of(args[2]))
+
+
+def mr_contract(op, sv, extra_req, witness):
+    inv = "(g_k < %%s ==> (g_w_h == self->recordables_.items[g_k].second.id && g_w_op == %s && g_w_sv == %s.data_ && %s))" % (op, sv, witness)
+    return {"pre":
+        "__CPROVER_requires(__CPROVER_is_fresh(self, sizeof(*self)) && self->recordables_.count <= 64 && __CPROVER_is_fresh(self->recordables_.items, self->recordables_.count * sizeof(xc_recpair))" + extra_req + ")\n"
+        "__CPROVER_assigns(MR_GHOSTS)\n"
+        # one call per processor's recordable, in order, each with the caller's arguments
+        "__CPROVER_ensures(g_calls == self->recordables_.count && " + inv % "self->recordables_.count" + ")\n",
+        "loops": {1: "__CPROVER_assigns(xc_i1, MR_GHOSTS)\n"
+                     "__CPROVER_loop_invariant(xc_i1 <= self->recordables_.count && g_calls == xc_i1 && " + inv % "xc_i1" + ")\n"
+                     "__CPROVER_decreases(self->recordables_.count - xc_i1)\n"}}
+
+
+contracts_mr = {
+    "MultiRecordable_SetName": mr_contract("MOP_SetName", "name", "", "1"),
+    "MultiRecordable_SetStatus": mr_contract("MOP_SetStatus", "description", "", "g_w_i == (long)code"),
+    "MultiRecordable_SetAttribute": mr_contract("MOP_SetAttribute", "key", " && __CPROVER_is_fresh(value, sizeof(*value))", "g_w_p == value"),
+    "MultiRecordable_AddEvent": mr_contract("MOP_AddEvent", "name", " && __CPROVER_is_fresh(attributes, sizeof(*attributes))", "g_w_i == timestamp.nanos_since_epoch_ && g_w_p == attributes"),
+}
+proofs_mr = [Proof("MultiRecordable_" + m, [("MultiRecordable::" + m, n)], enforce="MultiRecordable_" + m, timeout=300,
+                   desc="the operation reaches the recordable of every processor exactly once with the caller's arguments")
+             for m, n in (("SetName", 1), ("SetStatus", 2), ("SetAttribute", 2), ("AddEvent", 3))]
+for _p in proofs_mr:
+    _p.tu = TU_MR
+    _p.pre_c = MR_PRE.replace("typedef struct xc_recpair", "#include \"xc_trace_boundary.h\"\ntypedef struct xc_recpair")
+    _p.post_struct_c = MR_POST
+    _p.spec_headers = ()
+    _p.force_records = ("nostd::string_view", "common::SystemTimestamp")
+    _p.configure = _configure_mr
+    _p.own_config = True
+    _p.contracts = contracts_mr
+proofs += proofs_mr
